@@ -256,10 +256,41 @@ var c05Ops = []c05Op{
 			err = af.SetOPCR(uint64(arg) * 7654321)
 		case "SetSpliceCountdown":
 			err = af.SetSpliceCountdown(byte(arg))
-		case "SetTransportPrivateData":
-			err = af.SetTransportPrivateData(data)
-		case "SetAdaptationFieldExtension":
-			err = af.SetAdaptationFieldExtension(data)
+		case "SetTransportPrivateData", "SetAdaptationFieldExtension":
+			// besides the length derived from arg: exactly the lengths the packet's own (possibly corrupt) length
+			// bytes announce, so that "same size as before" paths are taken on ill-formed fields too
+			off := 6
+			if p[5]&0x10 != 0 {
+				off += 6
+			}
+			if p[5]&0x08 != 0 {
+				off += 6
+			}
+			if p[5]&0x04 != 0 {
+				off++
+			}
+			lens := []int{len(data)}
+			if off < 188 {
+				lens = append(lens, int(p[off]))
+				if p[5]&0x02 != 0 {
+					off += 1 + int(p[off])
+				}
+				if off < 188 {
+					lens = append(lens, int(p[off]))
+				}
+			}
+			for _, n := range lens {
+				q := *p
+				qa, e2 := q.AdaptationField()
+				if e2 != nil {
+					continue
+				}
+				if c05AfSetters[arg%len(c05AfSetters)] == "SetTransportPrivateData" {
+					err = qa.SetTransportPrivateData(make([]byte, n))
+				} else {
+					err = qa.SetAdaptationFieldExtension(make([]byte, n))
+				}
+			}
 		}
 		return res(err)
 	}},
